@@ -209,7 +209,8 @@ def insertSorted (x : String) : List String → List String
 def osfsStep (files : List (String × Int)) (st : String) : Option (List (String × Int) × String) :=
   match st.splitOn ":" with
   | ["w", n] => (stringOfHex? n).map fun name =>
-      (if files.any (·.1 == name) then files else files ++ [(name, 0)], "w")
+      -- (re)writing a file stamps it with the current time: modelled as "unknown" (0)
+      ((files.filter (fun q => !decide (q.1 = name))) ++ [(name, 0)], "w")
   | ["h", n, _, m] => do
       let name ← stringOfHex? n
       let mt ← int? m
